@@ -115,6 +115,12 @@ def check(ctx: Ctx) -> str:
         f2 = repo.func(f"sandbox:SandboxedEnvironment.{meth}")
         ctx.check("self.is_safe_attribute(" in ast.unparse(f2.node), f"{meth} consults", f"sandbox:SandboxedEnvironment.{meth}", "is_safe_attribute consulted", f"{meth} no longer consults is_safe_attribute", f2.loc())
     no_argument_mutation(ctx, "R3")
+    # the one statement that stores into an existing object, `{% set obj.attr ... %}`, never
+    # goes through is_safe_attribute: only its Namespace check (C03.R5) keeps it off the
+    # lists / dicts of the render data
+    from . import c03
+
+    ctx.run_imported("C03", {"R5"}, c03.check)
     return __doc__ or ""
 
 
